@@ -143,7 +143,8 @@ class Named:
 
 
 EXC = {c.__name__: c for c in (ValueError, TypeError, KeyError, RuntimeError, ZeroDivisionError,
-                                 LookupError, IndexError, AttributeError, ArithmeticError, OSError)}
+                                 LookupError, IndexError, AttributeError, ArithmeticError, OSError,
+                                 NotImplementedError, AssertionError)}
 
 
 class CustomError(Exception):
